@@ -57,11 +57,11 @@ func LengthFilterConstructor(config map[string]interface{}, cache *registry.Cach
 	min := 0
 	max := 0
 
-	minVal, ok := config["min"].(float64)
+	minVal, ok := configNumber(config["min"])
 	if ok {
 		min = int(minVal)
 	}
-	maxVal, ok := config["max"].(float64)
+	maxVal, ok := configNumber(config["max"])
 	if ok {
 		max = int(maxVal)
 	}
@@ -77,4 +77,18 @@ func init() {
 	if err != nil {
 		panic(err)
 	}
+}
+
+// configNumber reads a numeric option that arrives as float64 from JSON (a
+// reopened index) or as an int from a mapping built through the Go API.
+func configNumber(v interface{}) (float64, bool) {
+	switch n := v.(type) {
+	case float64:
+		return n, true
+	case int:
+		return float64(n), true
+	case int64:
+		return float64(n), true
+	}
+	return 0, false
 }
